@@ -4,6 +4,7 @@ package main
 
 import (
 	"fmt"
+	"regexp"
 	"strconv"
 	"strings"
 
@@ -144,8 +145,28 @@ func genFP(r *hutil.Rand) (string, string) {
 	return hutil.Pick(r, []string{"SHA256", "SHA256", "SHA512", "SHA1"}), sb.String()
 }
 
+// the domain of Props/C06.v C06_accepted_cert for the key id: any text without newline such that " "+kid holds no
+// fragment  ssh<alnum+>: <[A-Za-z0-9_ -]+>:<non-space>  (Coq: no_ssh_frag).  A key id WITH such a fragment moves the
+// greedy fields of the unanchored accepted-publickey pattern (C06_keyid_ssh_fragment_refuted), so the theorem and
+// hence the oracle claim nothing about it and the generator does not produce it.
+var sshFragRE = regexp.MustCompile(` ssh[0-9A-Za-z]+: [0-9A-Za-z_ -]+:[^\t\n\f\r ]`)
+
+func noSSHFrag(kid string) bool { return !sshFragRE.MatchString(" " + kid) }
+
+var keyIDFrags = []string{" ", " ", "(", ")", "serial", "(serial 5)", " (serial 7) ", " from ", " port ", "from", "port", "ssh", " ssh", " ssh2", "ssh2:", " ssh2: ",
+	":", "a:b", "RSA SHA256:", "ID ", " CA ", "x", "ops", "jane", "doe", "é", "日", "@", "6.6.6.6", "22", "-", "_"}
+
 func genKeyID(r *hutil.Rand) string {
-	switch r.Intn(6) {
+	for {
+		kid := genKeyIDRaw(r)
+		if noSSHFrag(kid) && !strings.Contains(kid, "\n") {
+			return kid
+		}
+	}
+}
+
+func genKeyIDRaw(r *hutil.Rand) string {
+	switch r.Intn(12) {
 	case 0:
 		return "foo@bar.com"
 	case 1:
@@ -156,8 +177,47 @@ func genKeyID(r *hutil.Rand) string {
 		return "serial"
 	case 4:
 		return "a(b)c serial (x)"
+	case 5:
+		return "jane doe (ops) serial 12 (serial 3)"
+	case 6:
+		// everything of a forged fragment except a complete " sshX: ALG:SUM"
+		return fmt.Sprintf("ops from %s port %d (laptop) %s", genAddr(r), r.Intn(65536),
+			hutil.Pick(r, []string{"ssh key: spare", "ssh2", "ssh2: RSA SHA256", "ssh2:RSA SHA256:abc", "ssh-2: RSA SHA256:abc", "ssh: RSA SHA256:abc", "ssh2: RSA+SHA256:abc", "ssh2: RSA SHA256:"}))
+	case 7:
+		return hutil.Pick(r, []string{"ssh", "ssh2:", "sshd", " lead", "trail ", "a  b", "x (serial 1) CA RSA SHA256:abc", "ID y (serial 2)", "(serial", "(serial )", "ssh2: :x"})
+	case 8, 9:
+		n := 1 + r.Intn(7)
+		var sb strings.Builder
+		for i := 0; i < n; i++ {
+			sb.WriteString(hutil.Pick(r, keyIDFrags))
+		}
+		return sb.String()
 	}
 	return genUser(r)
+}
+
+// key type and hash names of the accepted-publickey line: what sshd prints (keyTypes, upper case) and the rest of the
+// class [A-Za-z0-9_-] the theorem covers (lower case, digits, underscore, words of the message, a leading "ssh")
+var keyTypesWide = []string{"ssh-ed25519", "ssh-rsa", "sk-ecdsa-sha2-nistp256", "ecdsa-sha2-nistp521", "rsa_sha2_512", "ED25519_cert-V01", "from", "port", "ssh2", "ssh", "x", "0", "-", "_"}
+var hashNamesWide = []string{"sha256", "md5", "SHA2_512", "ssh2", "from", "port", "x-1"}
+
+func genKeyTypeWide(r *hutil.Rand) string {
+	if r.Chance(1, 3) {
+		return hutil.Pick(r, keyTypesWide)
+	}
+	return hutil.Pick(r, keyTypes)
+}
+
+// fingerprint of the accepted-publickey line: (hash name, body); body = base64 incl. + / and = padding, or MD5 hex with colons
+func genFPWide(r *hutil.Rand) (string, string) {
+	hn, body := genFP(r)
+	if hn != "MD5" && r.Chance(1, 3) {
+		body += "="
+	}
+	if r.Chance(1, 4) {
+		hn = hutil.Pick(r, hashNamesWide)
+	}
+	return hn, body
 }
 
 func genSerial(r *hutil.Rand) string {
@@ -199,16 +259,21 @@ func genForm(r *hutil.Rand, form string) genLine {
 	unk := "unknown"
 	switch form {
 	case "accepted_key", "accepted_cert", "accepted_key_padded":
-		kt := hutil.Pick(r, keyTypes)
-		hn, fp := genFP(r)
+		kt := genKeyTypeWide(r)
+		hn, fp := genFPWide(r)
+		if r.Chance(1, 6) {
+			// the theorem holds for every user name without newline: forged fragments included (the greedy
+			// Username group ends at the LAST " from " that lets the rest match)
+			user = genHostileUser(r)
+		}
 		line := fmt.Sprintf("Accepted publickey for %s from %s port %s ssh2: %s %s:%s", user, addr, port, kt, hn, fp)
 		e := &expEvent{OK: true, Src: addr, Port: sp(port), LoggedAs: user, UserID: unk,
 			Data: map[string]string{"Alg": kt + " " + hn, "SSHKeySum": fp}}
 		g := genLine{Form: form, Exp: e, Forward: true, Cred: unk, Method: "SSHKeyLogin"}
 		if form == "accepted_cert" {
 			kid, serial := genKeyID(r), genSerial(r)
-			cakt := hutil.Pick(r, keyTypes[:6])
-			cahn, cafp := genFP(r)
+			cakt := genKeyTypeWide(r)
+			cahn, cafp := genFPWide(r)
 			ca := fmt.Sprintf("%s %s:%s", cakt, cahn, cafp)
 			line += fmt.Sprintf(" ID %s (serial %s) CA %s", kid, serial, ca)
 			e.UserID = kid
